@@ -78,6 +78,7 @@ def _work(args):
                 for f in list(d.vc.pc) + [d.vc.goal]:
                     hd.update(str(f.hash()).encode())  # z3's structural hash (names included); sexpr() of these DAGs is too slow
         out["vc_digest"] = hd.hexdigest()[:16] if res else None
+        out["structure"] = getattr(eng, "structure", None) if eng is not None else None
         native = natives.get(key)
         for d in res:
             ob = {"name": d.vc.name, "function": key, "clause": d.vc.clause, "status": d.status, "backend": d.backend, "ms": round(d.ms, 1), "reason": d.reason, "canary": d.vc.canary, "kind": d.vc.kind, "model": None}
@@ -93,10 +94,14 @@ def _work(args):
                         if native is not None and native.get("monitor") is not None:
                             try:
                                 msg = native["monitor"](build_args(recipe))
-                            except Exception as e:  # the real code raised something the monitor did not expect
-                                msg = f"{type(e).__name__}: {e}"
-                            viol["observed"] = msg
-                            viol["reproduced"] = msg is not None
+                                viol["observed"] = msg
+                                viol["reproduced"] = msg is not None
+                            except Exception as e:
+                                # objects realised from a solver model may be ill-formed in ways the contract's `requires` does not
+                                # rule out (the model of a refuted over-approximation); an exception on them is not a replayed
+                                # failure - the generated inputs of the cross-check below are what exercises exception clauses
+                                viol["observed"] = f"monitor could not be evaluated on the realised counterexample: {type(e).__name__}: {e}"
+                                viol["reproduced"] = False
                     except Exception as e:
                         viol["observed"] = "could not realise the model as Python values: " + repr(e)
                 out["violations"].append(viol)
@@ -137,10 +142,12 @@ def run_t1(modules: list[str], keys: list[str] | None, prop: str, ctx, timeout_m
         keys = [k for k, c in reg.contracts.items() if c.properties and prop in c.properties and not c.trusted]
     baseline = set()
     baseline_digest: dict = {}
+    baseline_structure: dict = {}
     if os.path.exists(BASELINE_PATH):
         _b = json.load(open(BASELINE_PATH))
         baseline = set(_b.get("fully_discharged", []))
         baseline_digest = _b.get("vc_digest", {})
+        baseline_structure = _b.get("structure", {})
     res = PropResult(prop=prop, level="proof")
     tasks = [(modules, k, ctx.repo, timeout_ms, ctx.seed, n_cross if ctx.tier == "quick" else n_cross * 10) for k in keys]
     mpctx = mp.get_context("spawn")
@@ -196,6 +203,12 @@ def run_t1(modules: list[str], keys: list[str] | None, prop: str, ctx, timeout_m
             res.obligations.append(Obligation(cn, key, "canary (deliberately false clause) must not be provable", merged, canary=True))
         all_held = True
         viol_by_ob = {v["obligation"]: v for v in o["violations"]}
+        # The sidecar contract (loop invariants by loop ordinal, callee contracts) was written against a particular loop / call
+        # structure of the function.  If that structure is no longer the one the baseline was established with, the invariants
+        # belong to another program text: an obligation that fails then says "the proof has to be redone", not "the code is
+        # wrong".  Only a counterexample that REPLAYS on the real function is still reported; the native monitor and the
+        # property's bounded stand-ins carry the verdict meanwhile.
+        restructured = key in baseline and baseline_structure.get(key) is not None and o.get("structure") is not None and o["structure"] != baseline_structure[key]
         spoken = spoken_fields(reg)
         for x in real:
             # a frame obligation about a field that no contract clause mentions cannot carry any property: a new write to
@@ -216,6 +229,13 @@ def run_t1(modules: list[str], keys: list[str] | None, prop: str, ctx, timeout_m
             sig = f"{prop}:T1:{x['name'].split('@')[0].split('~')[0]}"
             if x["status"] == VIOLATED and v is not None and v["reproduced"]:
                 res.violations.append(Violation(signature=sig, what=f"obligation {x['name']} refuted; counterexample reproduces on the real function: {v['observed']}", input={"contract": key, "args": v["input"]}, obligation=x["name"], contract=x["clause"], observed=v["observed"], solver_output=x["model"], tier="T1"))
+            elif restructured:
+                was, now = baseline_structure[key], o["structure"]
+                diff = "; ".join(f"{k}: {was.get(k)} -> {now.get(k)}" for k in ("loops", "comprehensions", "calls") if was.get(k) != now.get(k))
+                res.obligations[-1].status = UNDECIDED
+                res.obligations[-1].reason = f"proof not re-established: the function was restructured since its sidecar contract was written ({diff[:400]}); no counterexample replays on the real code"
+                if key not in [f["function"] for f in res.functions_not_under_contract]:
+                    res.functions_not_under_contract.append({"function": key, "reason": "restructured since the sidecar contract was written (" + diff[:300] + "): deductive layer not re-established, native monitor / bounded stand-ins decide"})
             elif key in baseline and x["status"] == UNDECIDED and o.get("vc_digest") and baseline_digest.get(key) == o["vc_digest"]:
                 # the formulas of this contract are, character by character, the ones that were discharged on the baseline
                 # tree (same code, same contract, same encoding): the solver running out of budget on them says nothing
@@ -237,6 +257,7 @@ def run_t1(modules: list[str], keys: list[str] | None, prop: str, ctx, timeout_m
     )
     res.extra["t1_fully_discharged"] = fully
     res.extra["t1_vc_digest"] = {o["key"]: o.get("vc_digest") for o in outs if o["key"] in fully and o.get("vc_digest")}
+    res.extra["t1_structure"] = {o["key"]: o.get("structure") for o in outs if o["key"] in fully and o.get("structure")}
     res.extra["t1_baseline_fully_discharged"] = sorted(baseline & set(keys))
     return res
 
